@@ -243,4 +243,9 @@ def bound (s : Sys) (l : Nat) (k : Key) : Option V := (lk k (s.ents l)).join
 def resolve (s : Sys) (l : Nat) (k : Key) : Option V :=
   (chain s.ps l).reverse.findSome? fun a => bound s a k
 
+/-- what a lookup answers for a resolution -/
+def ansOf : Option V → Ans
+  | some v => .found v
+  | none => .notfound
+
 end Pcore.LoaderSeq
